@@ -8,7 +8,9 @@ cd "$ROOT/harness" || exit 2
 log="$ROOT/harness/miri-$bin.log"
 export PV_MIRI=1 PV_EVIDENCE_SUFFIX=.miri PV_ROOT="$ROOT" CARGO_NET_OFFLINE=true
 # leaks are part of the programs (mem::forget of guards and drains); isolation off: the binary reads known_findings.txt
-export MIRIFLAGS="-Zmiri-disable-isolation -Zmiri-ignore-leaks"
+# deterministic floats: Miri otherwise perturbs the results of powf / cbrt / sin ... at random, and the oracles compare two
+# evaluations of the same conversion bitwise
+export MIRIFLAGS="-Zmiri-disable-isolation -Zmiri-ignore-leaks -Zmiri-deterministic-floats"
 start=$(date +%s)
 timeout "${PV_MIRI_TIMEOUT:-7200}" cargo +nightly miri run --offline -q --bin "$bin" -- thorough >"$log" 2>&1
 rc=$?
